@@ -2,8 +2,9 @@
   C15 — model of xgi/algorithms/simpliciality.py, xgi/utils/trie.py and EdgeView.maximal (views.py),
   over the shared static network `Xgi.Net`.  No Mathlib.
 
-  Domain: node labels all `int` or all `str` (Python's `sorted` raises `TypeError` otherwise), no empty
-  edge (`EdgeView.maximal` raises on one), members are nodes.  Outside of it the driver answers "unmodelled".
+  Domain: node labels all `int` or all `str` (Python's `sorted` raises `TypeError` otherwise), members are
+  nodes.  Outside of it the driver answers "unmodelled".  Empty edges are inside the domain (`EdgeView.maximal`
+  treats an empty edge as contained in every edge).
 
   What is a transcription and what is an abstraction
   * `Trie`, `Trie.insert`, `Trie.search`, `buildTrie` follow trie.py statement for statement (children dict =
@@ -143,6 +144,11 @@ def interAll : List (List PyId) → Option (List PyId)
   | [] => none
   | s :: rest => some (rest.foldl (fun a b => a.filter (· ∈ b)) s)
 
+/-- the local function `containing(e)` of `EdgeView.maximal`: IDs of the edges that contain every node of `e`;
+    `set(edges)` for an empty edge (it is contained in every edge), otherwise the `reduce` over the memberships -/
+def containing (h : Net) (e : List PyId) : Option (List PyId) :=
+  if e.isEmpty then some (h.edges.map (·.1)) else interAll (e.map h.memberships)
+
 /-- `dups[frozenset(e)]` -/
 def dupIds (h : Net) (e : List PyId) : List PyId := (h.edges.filter (fun q => sameSet q.2 e)).map (·.1)
 
@@ -152,7 +158,7 @@ def maximalStep (h : Net) (acc : Option (List PyId)) (p : PyId × List PyId) : O
   | none => none
   | some mx =>
     if p.1 ∈ mx then some mx else
-    match interAll (p.2.map h.memberships) with
+    match containing h p.2 with
     | none => none
     | some s => if sameSet s (dupIds h p.2) then some ((dupIds h p.2).foldl (fun a i => ins i a) mx) else some mx
 
@@ -319,7 +325,6 @@ def downClosed (h : Net) (minSize : Nat) : Bool :=
 
 /-! ### domain of the model -/
 
-def noEmptyEdge (h : Net) : Bool := h.edges.all (fun p => !p.2.isEmpty)
 def noRepeatedEdge (h : Net) : Bool :=
   h.edges.all (fun p => h.edges.all (fun q => p.1 = q.1 || !sameSet p.2 q.2))
 def wfB (h : Net) : Bool :=
